@@ -340,6 +340,8 @@ def model_line(spec, f1):
 
 
 def family_key(spec):
+    if spec["fam"] == "gaussw":
+        return f"{'Reg' if spec['reg'] else ''}GaussianW:{spec['wiring']}:{spec['kind']}"
     if spec["fam"] == "gauss":
         cls = "data-broadcast" if spec["datak"] == "len1" else ("sparse" if spec["n"] > 75 else "dense")
         return f"{'Reg' if spec['reg'] else ''}Gaussian:{spec['wiring']}:{cls}"
@@ -1157,7 +1159,50 @@ def stream_direct(ctx, cuqi, thorough):
         for rep in range(10 if thorough else 2):
             runs.append((name, mk, rng.randint(0, 6), rng.randint(0, 3), rng.choice([1, 1, 2])))
     lines = [f"direct {nv} {nb + ns}" for _, _, ns, nb, nv in runs]
-    outs = ctx.lean.drive(lines)
+    # kinds of target for Direct.validate_target (model: directValidates / directCalls), same driver call
+    vkinds = [("hasSample", lambda: D.Gaussian(np.zeros(2), 1.0)), ("userSampleFunc", None), ("userNoSampleFunc", lambda: D.UserDefinedDistribution(dim=2, logpdf_func=lambda x: -0.5 * float(np.sum(x ** 2)))),
+              ("conditional", lambda: D.Gaussian(lambda z: z * np.ones(2), 1.0)), ("noSampleMethod", lambda: type("NoSample", (), {"dim": 1})())]
+    vruns = [(kind, mk, rng.randint(1, 2), rng.randint(0, 4)) for kind, mk in vkinds for _ in range(2)]
+    outs_all = ctx.lean.drive(lines + [f"directv {kind} {k} {n}" for kind, _, k, n in vruns])
+    outs, vouts = outs_all[:len(lines)], outs_all[len(lines):]
+    for (kind, mk, k, n), vout in zip(vruns, vouts):
+        desc = {"direct-target-kind": kind, "assignments": k, "N": n}
+        ctx.case("direct-validate", desc)
+        key = f"tie:direct:validate:{kind}"
+        calls = [0]
+        def sample_func(calls=calls):
+            calls[0] += 1
+            return np.full((2, 1), float(calls[0] - 1))
+        try:
+            with quiet():
+                t = D.UserDefinedDistribution(dim=2, sample_func=sample_func) if kind == "userSampleFunc" else mk()
+                if kind == "hasSample":
+                    orig = t._sample
+                    def counting(N=1, rng=None, orig=orig, calls=calls):
+                        calls[0] += 1
+                        return orig(N, rng)
+                    t._sample = counting
+                smp = E.Direct(t)
+                for _ in range(k - 1):
+                    smp.target = t
+                if n:
+                    smp.sample(n)
+            impl = f"ok {calls[0]}"
+            chain = [np.asarray(v, dtype=float).ravel() for v in smp._samples] if n else []
+        except TypeError:
+            impl, chain = "TypeError", []
+        except Exception as e:
+            impl, chain = f"{type(e).__name__}", []
+        if impl != vout:
+            ctx.disagree(key, desc, vout, impl, "Direct.validate_target / number of calls of the target's sampling routine differs from the model")
+            if vout == "TypeError" and impl.startswith("ok"):
+                ctx.fail(key, desc, "TypeError: the target cannot be sampled", impl, "Direct accepts a target whose sample() does not return")
+        if kind == "userSampleFunc" and impl.startswith("ok"):
+            # ORACLE: the stored states are the return values of sample_func, in order, each once (after the validation calls)
+            want = [float(j) for j in range(k, k + n)]
+            got = [float(c[0]) if len(c) == 2 and c[0] == c[1] else None for c in chain]
+            if got != want:
+                ctx.fail(key, desc, want, got, "Direct's states are not the draws of the user supplied sample_func (in order, each once)")
     for (name, mk, ns, nb, nv), out in zip(runs, outs):
         desc = {"target": name, "Ns": ns, "Nb": nb, "assignments": nv}
         ctx.case("direct-scripted", desc)
